@@ -4,7 +4,7 @@ The prover executes them symbolically with every call into the repository replac
 body), and every `assert cond, "label"` becomes a named obligation `ghost.<fn>:assert:<label>`.  The native harness
 runs the same text against the real code.  They contain no repository logic of their own."""
 from space_packet_parser.packets import RawPacketData, ccsds_generator, create_ccsds_packet
-from space_packet_parser.xtce.encodings import FloatDataEncoding
+from space_packet_parser.xtce.encodings import FloatDataEncoding, IntegerDataEncoding, BinaryDataEncoding
 from specs.oracles import *  # noqa: F401,F403  (spec functions may be used in assertions)
 
 
@@ -171,6 +171,39 @@ def c04_float_ctor(size_in_bits, encoding, byte_order, data):
         else:
             assert feq(got, ieee(mark + 'd', data)), "ieee_value_64"
     return enc
+
+
+def c04_int_ctor(size_in_bits, encoding, byte_order, packet):
+    """C04: an integer encoding built by the REAL constructor from (size, encoding, byte order) decodes a field as the
+    value those DECLARED arguments prescribe - the constructor keeps them as given (no normalisation that changes the
+    meaning) and attaches no calibrators of its own."""
+    p0 = packet.raw_data.pos
+    enc = IntegerDataEncoding(size_in_bits, encoding, byte_order=byte_order)
+    assert enc.size_in_bits == size_in_bits, "size_kept"
+    assert enc.encoding == encoding, "encoding_kept"
+    assert enc.byte_order == byte_order, "byte_order_kept"
+    assert enc.default_calibrator is None and enc.context_calibrators is None, "no_calibrators"
+    v = enc._get_raw_value(packet)
+    assert packet.raw_data.pos == p0 + size_in_bits, "cursor"
+    if byte_order != 'leastSignificantByteFirst' or size_in_bits % 8 == 0:
+        assert v == int_decode(bits(packet.raw_data, p0, size_in_bits), size_in_bits, encoding, byte_order), \
+            "decodes_as_declared"
+    return v
+
+
+def c07_binary_ctor(fixed_size_in_bits, packet):
+    """C07: a binary encoding built by the REAL constructor with a fixed size yields exactly the next fixed_size_in_bits
+    bits of the packet, left-padded to whole bytes, and advances the cursor by that size."""
+    p0 = packet.raw_data.pos
+    enc = BinaryDataEncoding(fixed_size_in_bits=fixed_size_in_bits)
+    assert enc.fixed_size_in_bits == fixed_size_in_bits, "size_kept"
+    assert enc.size_reference_parameter is None and enc.size_discrete_lookup_list is None and \
+        enc.linear_adjuster is None, "nothing_else_set"
+    v = enc.parse_value(packet)
+    assert packet.raw_data.pos == p0 + fixed_size_in_bits, "cursor"
+    assert len(v) == ceil8(fixed_size_in_bits), "length"
+    assert be(v) == bits(packet.raw_data, p0, fixed_size_in_bits), "field_bits"
+    return v
 
 
 # ---- C09 / C15: write -> load round trips (bounded: lxml is outside the prover's reach, E6) ----------------------------
